@@ -61,14 +61,22 @@ Theorem jsmn_parse_in_bounds : forall budget s,
 Proof. exact jsmn_parse_inv. Qed.
 Print Assumptions jsmn_parse_in_bounds.
 
-(* U: with the two bounds repairs (patches/C15-fromjson-bounds.diff) fromJSON never reads behind the
-   token array and never uses an empty stack: for every byte string the outcome is a value or a
-   thrown error *)
+(* U: with the two bounds repairs (as committed in /repo, 289046cb: the end-of-tokens test after a key and
+   the emptiness tests in front of every use of the two stacks; a container where a key is expected
+   stays accepted) fromJSON never reads behind the token array and never uses an empty stack: for
+   every byte string the outcome is a value or a thrown error *)
 Theorem from_json_no_oob : forall v,
   jv_key_overread v = false -> jv_container_key v = false ->
   forall s w, from_json v s <> Oob w.
 Proof. exact from_json_no_oob_lemma. Qed.
 Print Assumptions from_json_no_oob.
+
+(* the repaired parser still accepts the lenient texts the repository's own tests parse *)
+Theorem from_json_lenient_accepted :
+  from_json js_fixed w_lenient = from_json js_pinned w_lenient /\
+  exists d, from_json js_fixed w_lenient = Ok d /\ d <> empty_data.
+Proof. exact from_json_lenient_container_key. Qed.
+Print Assumptions from_json_lenient_accepted.
 
 (* the pinned parser reads behind the token array on {"a"} and pops the empty data stack on {[]1} *)
 Theorem from_json_no_oob_pinned_refuted :
